@@ -191,7 +191,8 @@ def perform(op, v, ip, res):
         # then modified in place, as in the "style each character in a loop" idiom
         out = []
         for n, item in enumerate(v):
-            out.append(copy.deepcopy(item))
+            # (an AnsiStr item is immutable and is recorded as it is; deepcopy would rebuild it from its payload)
+            out.append(copy.deepcopy(item) if isinstance(item, AnsiString) else item)
             if isinstance(item, AnsiString):
                 if (n + op['mutate']) % 3 == 0:
                     item.apply_formatting('[1')
